@@ -66,6 +66,7 @@ let dispatch (fn : string) : jv -> jv = match fn with
   | "encrypt_with" -> encrypt_with_j
   | "string_to_key" -> string_to_key_j
   | "des3_random_to_key" -> des3_random_to_key_j
+  | "key_from_password" -> key_from_password_j
   | _ -> failwith ("unknown model function " ^ fn)
 
 let () =
